@@ -65,12 +65,13 @@ pub const COMPRESSIONS: [&str; 4] = ["none", "zlib", "bzip2", "lzma"];
 
 fn flat_name() -> impl Strategy<Value = String> {
     // host-safe, no leading '-' or '.', no blanks at the ends, always an extension
-    ("[A-Za-z0-9_][A-Za-z0-9_ .+-]{0,10}[A-Za-z0-9_]|[A-Za-z0-9_]{1,2}", "[a-z0-9]{1,3}").prop_map(|(a, e)| format!("{a}.{e}"))
+    // (one in ten names is longer than any column a listing could be cut to)
+    (prop_oneof![9 => "[A-Za-z0-9_][A-Za-z0-9_ .+-]{0,10}[A-Za-z0-9_]|[A-Za-z0-9_]{1,2}", 1 => "[A-Za-z0-9_]{70,110}"], "[a-z0-9]{1,3}").prop_map(|(a, e)| format!("{a}.{e}"))
 }
 
 fn dir_name() -> impl Strategy<Value = String> {
     (
-        proptest::collection::vec("[A-Za-z0-9_][A-Za-z0-9_ -]{0,6}[A-Za-z0-9_]|[A-Za-z0-9_]{1,2}", 0..=2),
+        proptest::collection::vec(prop_oneof![9 => "[A-Za-z0-9_][A-Za-z0-9_ -]{0,6}[A-Za-z0-9_]|[A-Za-z0-9_]{1,2}", 1 => "[A-Za-z0-9_]{25,45}"], 0..=2),
         proptest::collection::vec(any::<bool>(), 3),
         flat_name(),
     )
@@ -381,7 +382,10 @@ pub fn run_create(check: &Check, c: &CreateCase) -> Result<(), Fail> {
     check.count(&class, !missing.is_empty() || maxlen > 16384);
     check.sample(&format!("create:{ver}:{comp}"), || json!({"part": "create", "case": c}));
     bump_extract(check, &c.extract, missing.len(), false);
-    let ctx = format!("create:{ver}:{comp}");
+    if present.iter().any(|n| n.len() > 80) {
+        check.bump("list:name-longer-than-80", 1);
+    }
+    let ctx = "create".to_string();
 
     let mut args = crate::sandbox::sv(&["mpq", "create", "arch.mpq", "--version", &ver, "-c", comp]);
     if c.with_listfile {
@@ -477,7 +481,10 @@ pub fn run_lib(check: &Check, c: &LibCase) -> Result<(), Fail> {
     check.count(&class, !missing.is_empty() || (has_dirs && c.extract.preserve));
     check.sample(&format!("lib:V{}", spec.version), || json!({"part": "lib", "case": c}));
     bump_extract(check, &c.extract, missing.len(), has_dirs);
-    let ctx = format!("lib:V{}", spec.version);
+    if present.iter().any(|n| n.len() > 80) {
+        check.bump("list:name-longer-than-80", 1);
+    }
+    let ctx = "lib".to_string();
 
     if let Err(e) = crate::fixtures::build_mpq(spec, &sb.path("arch.mpq")) {
         // the builder refusing a spec is not this property's business
